@@ -89,6 +89,29 @@ def rand_text(rng):
     return rng.choice(CURATED)
 
 
+VAR_DEFS = ["10%", "-5%", "200", "0", "2,5", "$200", "40 eur", "3 days", "2 hours", "12/02/2020", "1 jan 2021", "11:30", "11:30 EST",
+            "5 km", "250 g", "0x1F", "1024 kb", "1664582400 to date", "today", "10 usd to eur"]
+VAR_USES = ["{v}", "{v} + 5", "200 on {v} + 5", "{v} on 200 + 5", "$200 off {v} + $5", "{v} of 50 * 2", "{v} to eur + 1", "{v} to m * 2", "{v} + {w}",
+            "{v} - {w}", "{v} * 2 + 1", "{v} / {w}", "{v} to {w}", "{v} as hours + 1", "{v} to hex + 1", "{v} + 3 days 2 hours", "{v} {w}", "{w} {v} + 1",
+            "{v} is what % of {w}", "{v} is {w} of what", "{v} at {w}", "{v} to EST + 1 hour", "{v} as unix + 1", "-{v}", "- {v} * - {w}", "({v}) + ({w})",
+            "{v} = {v} + 1", "{v} = {w}", "{v} = {v} * {v}", "{v} = {v}", "{v} / {w} / {v}", "{v} to date + 1 day", "{v} % {w}", "{v} in {w}"]
+
+
+def rand_program(rng):
+    """assignments of values of all kinds, then uses of the names inside every phrase shape (also followed by further
+    tokens), re-assignments and self-references"""
+    names = rng.sample(["x", "y", "d", "discount", "my var", "my var long", "t"], rng.randint(1, 4))
+    lines = []
+    for n in names:
+        lines.append(f"{n} = {rng.choice(VAR_DEFS)}")
+    for _ in range(rng.randint(1, 6)):
+        u = rng.choice(VAR_USES).replace("{v}", rng.choice(names)).replace("{w}", rng.choice(names + [rng.choice(VAR_DEFS)]))
+        lines.append(u)
+        if rng.random() < 0.2:
+            lines.append(f"{rng.choice(names)} = {rng.choice(VAR_DEFS)}")
+    return rng.choice(["\n", "\n", "\r\n"]).join(lines)
+
+
 def rand_multi(rng):
     n = rng.randint(1, 6)
     return "".join(rand_text(rng)[:400] + rng.choice(["\n", "\r\n", "\n", ""] if i < n - 1 else ["", "\n", "\r\n", "\r"]) for i in range(n))
@@ -127,10 +150,49 @@ def classify(res, text):
     return "abnormal"
 
 
+def boundary_lines():
+    """systematic boundary values of every numeric field a literal can carry (hours, minutes, seconds, days, months,
+    zone offsets, radix digits): the values just inside and just outside each regex / constructor domain"""
+    out = []
+    for h in [0, 1, 9, 10, 11, 12, 13, 19, 20, 23, 24, 25, 29, 30, 99]:
+        for m in ["00", "59", "60", "99", "5"]:
+            out.append(f"{h}:{m}")
+            out.append(f"{h}:{m}:59")
+            out.append(f"{h}:{m}:60")
+            out.append(f"{h}:{m} pm")
+            out.append(f"{h}:{m} EST to CET")
+        out.append(f"{h} am")
+        out.append(f"{h}pm")
+        out.append(f"1 jan 2020 at {h}")
+        out.append(f"GMT+{h}")
+        out.append(f"11:30 GMT+{h}")
+        out.append(f"11:30 GMT-{h}:59")
+        out.append(f"11:30 GMT+{h}:60")
+    for d in [0, 1, 28, 29, 30, 31, 32, 99]:
+        for mo in [0, 1, 2, 4, 12, 13, 99]:
+            out.append(f"{d}/{mo}/2020")
+            out.append(f"{d}/{mo}/2021 + 1 month")
+            out.append(f"{d}/{mo}/0")
+            out.append(f"{d}/{mo}/999999")
+        for name in ["jan", "feb", "february", "apr", "dec"]:
+            out.append(f"{d} {name}")
+            out.append(f"{d} {name} 2020 - 1 month")
+            out.append(f"{name} {d}, 2021 + 12 months")
+    for n in ["0", "1", "59", "60", "86399", "86400", "4294967295", "4294967296", "-1"]:
+        out.append(f"[TIME:{n}]")
+        out.append(f"{n} to date")
+        out.append(f"{n} seconds as hours")
+    for pre, digs in [("0x", "fF09gG"), ("0b", "0123"), ("0o", "0789")]:
+        for d in digs:
+            out.append(pre + d)
+            out.append(pre + d * 20)
+    return out
+
+
 def run(ctx, model_ok):
     rng = ctx.rng
     cases = []   # (cfg ops, lang, text)
-    for t in CURATED:
+    for t in CURATED + boundary_lines():
         cases.append(([], "en", t))
     for t in CURATED[::3]:
         cases.append(([], "tr", t))
@@ -140,7 +202,8 @@ def run(ctx, model_ok):
     n = ctx.n(2500, 150000)
     for _ in range(n):
         lang = rng.choice(["en"] * 6 + ["tr"] * 3 + ["xx"])
-        t = rand_multi(rng) if rng.random() < 0.3 else rand_text(rng)
+        r_ = rng.random()
+        t = rand_multi(rng) if r_ < 0.25 else (rand_program(rng) if r_ < 0.45 else (L.text(rng, 6) if r_ < 0.5 else rand_text(rng)))
         cfg = [rng.choice(CFGS)] if rng.random() < 0.15 else []
         if rng.random() < 0.02:
             cfg.append(rng.choice(CFGS))
